@@ -529,7 +529,11 @@ def xyz2eq(xin, yin, zin, units="deg", stomp=False):
         np.rad2deg(theta, theta)
         np.rad2deg(phi, phi)
 
-    atbound(theta, 0.0, 360.0)
+        atbound(theta, 0.0, 360.0)
+    else:
+        # arctan2 gives (-pi, pi]
+        (w,) = np.where(theta < 0.0)
+        theta[w] += 2.0 * PI
 
     # theta->ra, phi->dec
     return theta, phi
